@@ -145,18 +145,21 @@ class Built:
         else:
             ds = factory(**kw).where(**dict(zip(pnames, nodes)))(f)
         for alias, impl in d.get("overloads", []):
-            if isinstance(impl, dict) and impl.get("k") == "ovfn":
-                g = _make_fn(impl["name"], len(impl["params"]), self.body_impl(impl["name"], impl["body"], impl.get("partial")))
-                g.__defaults__ = tuple(self.node(p) for p in impl["params"])
-                ds.overload(alias)(g)
-            else:
-                obj = self.node(impl)
-                if isinstance(obj, Dataset):
-                    ds.overload(alias)(obj)
-                else:
-                    for a in (alias if isinstance(alias, list) else [alias]):
-                        ds.register(a, obj)
+            self.add_overload(ds, alias, impl)
         return ds
+
+    def add_overload(self, ds, alias, impl):
+        """Register an implementation on a live dataset the way user code would."""
+        if isinstance(impl, dict) and impl.get("k") == "ovfn":
+            g = _make_fn(impl["name"], len(impl["params"]), self.body_impl(impl["name"], impl["body"], impl.get("partial")))
+            g.__defaults__ = tuple(self.node(p) for p in impl["params"])
+            return ds.overload(alias)(g)
+        obj = self.node(impl)
+        if isinstance(obj, Dataset):
+            return ds.overload(alias)(obj)
+        for a in (alias if isinstance(alias, list) else [alias]):
+            ds.register(a, obj)
+        return obj
 
     # ---------------------------------------------------------------------------------------------
     def node(self, n):
